@@ -172,6 +172,8 @@ def read_params():
 
 # ---------------------------------------------------------------- prove
 def coq_makefile():
+    if not os.path.exists(os.path.join(COQ, "gen/Gen.v")):
+        translate_source()
     vs = sorted(f for f in os.listdir(COQ) if f.endswith(".v") and f != "Extract.v") + ["gen/Params.v", "gen/Gen.v"]
     txt = "-Q . NTT\n" + "\n".join(vs) + "\n"
     p = os.path.join(COQ, "_CoqProject")
